@@ -163,6 +163,9 @@ func hasCommentPrefix(sql string) bool {
 // ExtractMysqlComment extracts the version and SQL from a comment-only query
 // such as /*!50708 sql here */
 func ExtractMysqlComment(sql string) (version string, innerSQL string) {
+	if len(sql) < 5 {
+		return "", ""
+	}
 	sql = sql[3 : len(sql)-2]
 
 	digitCount := 0
@@ -170,6 +173,10 @@ func ExtractMysqlComment(sql string) (version string, innerSQL string) {
 		digitCount++
 		return !unicode.IsDigit(c) || digitCount == 6
 	})
+	if endOfVersionIndex < 0 {
+		// nothing but (at most five) version digits, e.g. /*!*/ or /*!40101*/
+		return sql, ""
+	}
 	version = sql[0:endOfVersionIndex]
 	innerSQL = strings.TrimFunc(sql[endOfVersionIndex:], unicode.IsSpace)
 
